@@ -10,6 +10,7 @@ import (
 	"encoding/hex"
 	"fmt"
 	"math"
+	"math/big"
 	"math/rand"
 	"net"
 	"runtime"
@@ -56,6 +57,8 @@ var extElems = []struct {
 }{
 	{9999, 1, ipfix.Uint32}, {9999, 2, ipfix.String}, {9999, 3, ipfix.Ipv6Address}, {9999, 4, ipfix.OctetArray},
 	{9999, 5, ipfix.Boolean}, {9999, 6, ipfix.Int64}, {9999, 7, ipfix.MacAddress}, {31337, 100, ipfix.Uint8},
+	// no IANA element of the built-in table is signed8 / signed16 / signed32 / float32
+	{9999, 8, ipfix.Int8}, {9999, 9, ipfix.Int16}, {9999, 10, ipfix.Int32}, {9999, 11, ipfix.Float32},
 }
 
 var (
@@ -142,17 +145,33 @@ func (p *flowProto) genSpec(r *rand.Rand, wfOnly bool) fspec {
 		s.id = elemIDs[r.Intn(len(elemIDs))]
 	}
 	t, _ := elemType(s)
-	switch k := r.Intn(20); {
-	case k < 13:
-		s.ln = natural[t]
-	case k < 16: // reduced / over-long encodings
+	a := adts[t]
+	isInt := a.class == "unsigned" || a.class == "signed"
+	s.ln = natural[t]
+	switch k := r.Intn(26); {
+	case k < 12:
+	case k < 15: // reduced / over-long encodings of any type
 		s.ln = 1 + r.Intn(20)
-	case k < 18 && p.isIPFIX && (t == ipfix.String || t == ipfix.OctetArray):
-		s.ln = 65535
-	case k < 19 && !wfOnly:
-		s.ln = []int{0, 0, 1, 2, 3, 4, 255, 256, 65535}[r.Intn(9)]
-	default:
-		s.ln = natural[t]
+	case k < 18: // an integer in more octets than its type has, still within 64 bits (usual in NetFlow v9 exports)
+		if isInt && a.size < 8 {
+			s.ln = a.size + 1 + r.Intn(8-a.size)
+		}
+	case k < 19: // longer than any integer
+		if isInt {
+			s.ln = 9 + r.Intn(4)
+		}
+	case k < 21: // variable length where exporters use it: strings, octet arrays, RFC 6313 structured data (291..293)
+		if p.isIPFIX && (t == ipfix.String || t == ipfix.OctetArray || (s.ent == 0 && s.id >= 291 && s.id <= 293)) {
+			s.ln = 65535
+		}
+	case k < 22: // RFC 7011 section 7: the variable-length marker on an element of any type
+		if p.isIPFIX {
+			s.ln = 65535
+		}
+	case k < 24:
+		if !wfOnly {
+			s.ln = []int{0, 0, 1, 2, 3, 4, 255, 256, 65535}[r.Intn(9)]
+		}
 	}
 	return s
 }
@@ -254,10 +273,19 @@ func (p *flowProto) genRecord(r *rand.Rand, t tpl) ([]byte, [][]byte) {
 	var vals [][]byte
 	for _, s := range t.all() {
 		ty, _ := elemType(s)
-		if p.isIPFIX && s.ln == 65535 && (ty == ipfix.String || ty == ipfix.OctetArray) {
+		if p.isIPFIX && s.ln == 65535 {
+			// RFC 7011 section 7: variable length, whatever the element's type
 			n := r.Intn(40)
 			if r.Intn(8) == 0 {
 				n = 250 + r.Intn(20)
+			}
+			if ty != ipfix.String && ty != ipfix.OctetArray && ty != ipfix.Unknown {
+				switch r.Intn(4) {
+				case 0, 1:
+					n = natural[ty]
+				case 2:
+					n = r.Intn(13)
+				}
 			}
 			if n >= 255 || r.Intn(5) == 0 {
 				b = append(b, 255)
@@ -283,13 +311,6 @@ func (p *flowProto) genRecord(r *rand.Rand, t tpl) ([]byte, [][]byte) {
 
 // ---- expected decode (independent of the decoder under test and of the Lean model) ----
 
-func signedN(v uint64, bits uint) int64 {
-	if v&(1<<(bits-1)) != 0 {
-		return int64(v) - (1 << bits)
-	}
-	return int64(v)
-}
-
 func beU(b []byte) uint64 {
 	var v uint64
 	for _, x := range b {
@@ -298,42 +319,85 @@ func beU(b []byte) uint64 {
 	return v
 }
 
-// expectVal: the canonical text of the value the property demands for value octets b of abstract type t
+// The abstract data types of RFC 7012 section 3.1 and the size in octets of their full-size encoding
+// (RFC 7011 section 6.1; 0 = any length). Written from the RFCs, keyed by the NAME of the collector's
+// type constant only.
+type adt struct {
+	class string
+	size  int
+}
+
+var adts = map[ipfix.FieldType]adt{
+	ipfix.Uint8: {"unsigned", 1}, ipfix.Uint16: {"unsigned", 2}, ipfix.Uint32: {"unsigned", 4}, ipfix.Uint64: {"unsigned", 8},
+	ipfix.Int8: {"signed", 1}, ipfix.Int16: {"signed", 2}, ipfix.Int32: {"signed", 4}, ipfix.Int64: {"signed", 8},
+	ipfix.Float32: {"float", 4}, ipfix.Float64: {"float", 8}, ipfix.Boolean: {"boolean", 1}, ipfix.MacAddress: {"mac", 6},
+	ipfix.OctetArray: {"octets", 0}, ipfix.String: {"string", 0}, ipfix.DateTimeSeconds: {"seconds", 4},
+	ipfix.DateTimeMilliseconds: {"epoch64", 8}, ipfix.DateTimeMicroseconds: {"epoch64", 8}, ipfix.DateTimeNanoseconds: {"epoch64", 8},
+	ipfix.Ipv4Address: {"ip", 4}, ipfix.Ipv6Address: {"ip", 16}, ipfix.Unknown: {"octets", 0},
+}
+
+// bigBE: the integer whose big-endian (network byte order) representation the octets are: sum b[i]*256^(n-1-i)
+func bigBE(b []byte) *big.Int {
+	v := new(big.Int)
+	for _, x := range b {
+		v.Mul(v, big.NewInt(256))
+		v.Add(v, big.NewInt(int64(x)))
+	}
+	return v
+}
+
+// bigTwos: the octets as a two's-complement integer of 8*len(b) bits
+func bigTwos(b []byte) *big.Int {
+	v := bigBE(b)
+	if len(b) > 0 && b[0] >= 0x80 {
+		v.Sub(v, new(big.Int).Lsh(big.NewInt(1), uint(8*len(b))))
+	}
+	return v
+}
+
+// expectVal: the canonical text of the value the property demands for value octets b of abstract type t.
+//
+// Integers (RFC 7011 section 6.1.1 / 6.1.2): "encoded ... in network byte order", so the value of an
+// integer field is the big-endian (for the signed types: two's-complement) integer of the field's octets —
+// of ALL of them, however many the template announced. A field of exactly the type's size is reported in
+// the Go type of that size; a longer one (NetFlow v9 exporters send unsigned8 / unsigned32 elements in 2, 4
+// or 8 octets) in 64 bits as long as it has at most 8 octets; anything longer cannot be an integer of the
+// information model and is reported as its octets, like a field shorter than the type (the property text).
+// Every other type is reported as the collector documents it: the IEEE bits / the epoch count / the truth
+// value of the leading octets of the type's size, addresses and strings with all their octets.
 func expectVal(b []byte, t ipfix.FieldType) string {
-	size := map[ipfix.FieldType]int{ipfix.Uint8: 1, ipfix.Int8: 1, ipfix.Boolean: 1, ipfix.Uint16: 2, ipfix.Int16: 2, ipfix.Uint32: 4, ipfix.Int32: 4,
-		ipfix.Float32: 4, ipfix.DateTimeSeconds: 4, ipfix.Uint64: 8, ipfix.Int64: 8, ipfix.Float64: 8, ipfix.DateTimeMilliseconds: 8,
-		ipfix.DateTimeMicroseconds: 8, ipfix.DateTimeNanoseconds: 8, ipfix.MacAddress: 6, ipfix.Ipv4Address: 4, ipfix.Ipv6Address: 16}[t]
-	if len(b) < size {
+	a := adts[t]
+	if len(b) < a.size {
 		return "raw:" + hex.EncodeToString(b) // encoded shorter than the type's size: raw octets
 	}
-	switch t {
-	case ipfix.Boolean:
+	switch a.class {
+	case "unsigned":
+		switch {
+		case len(b) == a.size:
+			return fmt.Sprintf("u%d:%s", 8*a.size, bigBE(b).String())
+		case len(b) <= 8:
+			return "u64:" + bigBE(b).String()
+		}
+	case "signed":
+		switch {
+		case len(b) == a.size:
+			return fmt.Sprintf("i%d:%s", 8*a.size, bigTwos(b).String())
+		case len(b) <= 8:
+			return "i64:" + bigTwos(b).String()
+		}
+	case "float":
+		return fmt.Sprintf("f%d:%s", 8*a.size, bigBE(b[:a.size]).String())
+	case "boolean":
 		return "bool:" + strconv.FormatBool(b[0] == 1)
-	case ipfix.Uint8:
-		return "u8:" + strconv.FormatUint(beU(b[:1]), 10)
-	case ipfix.Uint16:
-		return "u16:" + strconv.FormatUint(beU(b[:2]), 10)
-	case ipfix.Uint32, ipfix.DateTimeSeconds:
-		return "u32:" + strconv.FormatUint(beU(b[:4]), 10)
-	case ipfix.Uint64, ipfix.DateTimeMilliseconds, ipfix.DateTimeMicroseconds, ipfix.DateTimeNanoseconds:
-		return "u64:" + strconv.FormatUint(beU(b[:8]), 10)
-	case ipfix.Int8:
-		return "i8:" + strconv.FormatInt(signedN(beU(b[:1]), 8), 10)
-	case ipfix.Int16:
-		return "i16:" + strconv.FormatInt(signedN(beU(b[:2]), 16), 10)
-	case ipfix.Int32:
-		return "i32:" + strconv.FormatInt(signedN(beU(b[:4]), 32), 10)
-	case ipfix.Int64:
-		return "i64:" + strconv.FormatInt(int64(beU(b[:8])), 10)
-	case ipfix.Float32:
-		return "f32:" + strconv.FormatUint(beU(b[:4]), 10)
-	case ipfix.Float64:
-		return "f64:" + strconv.FormatUint(beU(b[:8]), 10)
-	case ipfix.MacAddress:
+	case "seconds":
+		return "u32:" + bigBE(b[:4]).String()
+	case "epoch64":
+		return "u64:" + bigBE(b[:8]).String()
+	case "mac":
 		return "mac:" + hex.EncodeToString(b)
-	case ipfix.String:
+	case "string":
 		return "str:" + hex.EncodeToString(b)
-	case ipfix.Ipv4Address, ipfix.Ipv6Address:
+	case "ip":
 		return "ip:" + hex.EncodeToString(b)
 	}
 	return "raw:" + hex.EncodeToString(b)
@@ -433,8 +497,7 @@ func (p *flowProto) header(r *rand.Rand, ver int) ([]byte, string) {
 func recLen(p *flowProto, t tpl) int { // -1 = variable
 	n := 0
 	for _, s := range t.all() {
-		ty, _ := elemType(s)
-		if p.isIPFIX && s.ln == 65535 && (ty == ipfix.String || ty == ipfix.OctetArray) {
+		if p.isIPFIX && s.ln == 65535 {
 			return -1
 		}
 		n += s.ln
@@ -447,8 +510,7 @@ func recLen(p *flowProto, t tpl) int { // -1 = variable
 func minRecLen(p *flowProto, t tpl) int {
 	n := 0
 	for _, s := range t.all() {
-		ty, _ := elemType(s)
-		if p.isIPFIX && s.ln == 65535 && (ty == ipfix.String || ty == ipfix.OctetArray) {
+		if p.isIPFIX && s.ln == 65535 {
 			n++
 			continue
 		}
@@ -458,14 +520,14 @@ func minRecLen(p *flowProto, t tpl) int {
 }
 
 // allKnown: every element is in the information model and the 65535 marker is used only where it
-// means "variable length" (IPFIX string / octetArray)
+// means "variable length": in IPFIX, on an element of any type (RFC 7011 section 7). In NetFlow v9 it is
+// a length like any other, and 65535 octets do not fit a datagram.
 func allKnown(p *flowProto, t tpl) bool {
 	for _, s := range t.all() {
-		ty, ok := elemType(s)
-		if !ok {
+		if _, ok := elemType(s); !ok {
 			return false
 		}
-		if s.ln == 65535 && !(p.isIPFIX && (ty == ipfix.String || ty == ipfix.OctetArray)) {
+		if s.ln == 65535 && !p.isIPFIX {
 			return false
 		}
 	}
